@@ -179,6 +179,10 @@ C18_UNUSED static void c18_p_any(ddpany *a) {
 		printf("V(P:");
 		c18_p_paar((Paar *)val);
 		printf(")");
+	} else if (vt->type_size == (ddpint)sizeof(Satz)) { // published size of a Kombination with padding == C's sizeof
+		printf("V(S:");
+		c18_p_satz((Satz *)val);
+		printf(")");
 	} else {
 		printf("V(?size=%lld)", (long long)vt->type_size);
 	}
